@@ -241,11 +241,20 @@ def _r2(ctx, P):
     # the local helper stores its value arguments at its index arguments
     its = ctx.func("ArchSemantics._itemsetter")
     inner = [n for n in ast.walk(its.node) if isinstance(n, ast.FunctionDef) and n is not its.node]
-    ok = len(inner) == 2 and any(pm.find("obj[item] = value", g) for g in inner) and all(
-        all(isinstance(s, (ast.Assign, ast.For)) for s in g.body) for g in inner)
-    multi = [g for g in inner if g.args.vararg is not None]
-    ok = ok and bool(multi) and bool(pm.find("for item, value in zip(items, values):\n    obj[item] = value", multi[0]))
-    ctx.check(ok, "R2", "_itemsetter(*items)(obj, *values) stores values[k] at obj[items[k]] and nothing else", its.where(),
+    single = [g for g in inner if g.args.vararg is None and len(g.args.args) == 2]
+    multi = [g for g in inner if g.args.vararg is not None and len(g.args.args) == 1]
+    ok = len(inner) == 2 and all(all(isinstance(s, (ast.Assign, ast.For)) for s in g.body) for g in inner)
+    if ok and single and multi:
+        o1, v1 = single[0].args.args[0].arg, single[0].args.args[1].arg
+        st1 = [b for _, b in pm.find("%s[M_i] = %s" % (o1, v1), single[0])]
+        i_def = [a for a in C.assigns_to(its.node, U(st1[0]["M_i"])) if isinstance(a, ast.Assign)] if st1 else []
+        ok = len(st1) == 1 and len(single[0].body) == 1 and any(U(a.value) == "%s[0]" % its.node.args.vararg.arg for a in i_def)
+        o2, vs = multi[0].args.args[0].arg, multi[0].args.vararg.arg
+        ok = ok and len(multi[0].body) == 1 and bool(pm.find(
+            "for M_i, M_v in zip(%s, %s):\n    %s[M_i] = M_v" % (its.node.args.vararg.arg, vs, o2), multi[0]))
+    else:
+        ok = False
+    ctx.judge(ok, len(inner) == 2 and bool(single) and bool(multi), "R2", "_itemsetter(*items)(obj, *values) stores values[k] at obj[items[k]] and nothing else", its.where(),
               "the summary of _itemsetter no longer holds", its.qname, "itemsetter summary")
 
 
